@@ -9,10 +9,12 @@ property theorems instantiate it with the regenerated `Vore.Extracted.goPrec`).
 
 The Go function works on `(tokens, index)`; here the state is the list of remaining tokens
 (`tokens[index:]`), so an index is `len(tokens) - remaining.length`.  Recursion is on a fuel
-argument (every call consumes one unit; `length + 1` units always suffice, see
-`Vore/Lemmas/Pratt.lean`).  Go panics (`tokens[index]` past the end) are the outcome `panic`;
-the unreachable-by-construction `return nil, next_index, err` with `err == nil` after a
-parenthesised sub-expression is the outcome `nilExpr`.
+argument (every call consumes one unit; `length + 1` units suffice for every rendering, see
+`Vore/Lemmas/Pratt.lean`).  This is the code after `fix: … parse_expr_pratt checks its index`:
+running off the end of the tokens and a missing `)` are `ParseError`s (outcome `err`; before
+the fix the first was an index-out-of-range panic and the second returned a nil expression
+without an error), an expression without tokens is a `ParseError`, and comments are dropped
+like white space.
 
 A `NUMBER` token carries the value `strconv.Atoi` gives its lexeme (0 on overflow).
 Core Lean only.
@@ -52,18 +54,14 @@ def exprTokens (pt : PrecTable) : List PTok → List PTok × List PTok
   | [] => ([], [])
   | t :: rest =>
     if isExprEnd pt t then ([], t :: rest)
-    else if t.goName == "WS" then exprTokens pt rest
+    else if t.goName == "WS" || t.goName == "COMMENT" then exprTokens pt rest
     else ((exprTokens pt rest).1.cons t, (exprTokens pt rest).2)
 
 inductive PRes where
   /-- `return lhs, token_index, nil` -/
   | ok (e : PExpr) (rest : List PTok)
-  /-- `return nil, next_index, err` with `err == nil` (a nil expression without an error) -/
-  | nilExpr (rest : List PTok)
-  /-- a `ParseError` at the first token of `rest` -/
+  /-- a `ParseError`; `rest` = the tokens from the failing index on (empty: at the end) -/
   | err (rest : List PTok)
-  /-- index out of range -/
-  | panic
   | fuel
 deriving Repr, DecidableEq, Inhabited
 
@@ -71,7 +69,7 @@ mutual
 /-- `parse_expr_pratt(tokens, index, minPrecedence)` with `toks = tokens[index:]` -/
 def pratt (pt : PrecTable) : Nat → List PTok → Int → PRes
   | 0, _, _ => .fuel
-  | _ + 1, [], _ => .panic
+  | _ + 1, [], _ => .err []
   | f + 1, t :: rest, m =>
     match t with
     | .str s => prattLoop pt f (.str s) rest m
@@ -83,9 +81,8 @@ def pratt (pt : PrecTable) : Nat → List PTok → Int → PRes
       match pratt pt f rest 0 with
       | .ok e rest' =>
         match rest' with
-        | [] => .panic
         | .rparen :: rest'' => prattLoop pt f e rest'' m
-        | _ :: _ => .nilExpr rest'
+        | _ => .err rest'
       | r => r
     | .op o =>
       if pt.prefixOp o then
@@ -119,6 +116,7 @@ def parseTokens (pt : PrecTable) (toks : List PTok) : PRes := pratt pt (toks.len
 of the expression that the Pratt parser leaves unconsumed (after an unmatched `)`) are
 ignored, as in the Go code. -/
 def parseProcessExpression (pt : PrecTable) (toks : List PTok) : PRes :=
+  if (exprTokens pt toks).1.isEmpty then .err (exprTokens pt toks).2 else
   match parseTokens pt (exprTokens pt toks).1 with
   | .ok e _ => .ok e (exprTokens pt toks).2
   | r => r
